@@ -73,18 +73,44 @@ class StreamRW(Component):
             elif r < 0.6:
                 f['seg'] = gen.join(sorted(set(rng.randint(0, 400) for _ in range(rng.randint(1, 12)))))
             out.append('streamrw ' + gen.fields_str(f))
+        # a frame holds at most 65535 samples per channel (16-bit block size field): longer writes must be refused
+        # (an EMPTY write panics in audio.rs chunks_exact_mut(0) instead of returning InvalidBlockSize: no frame is emitted, so this is
+        #  outside C16 and not generated here; recorded in DESIGN.md as an observation outside the listed properties)
+        for ch, ln in [(1, 65535), (1, 65536), (1, 65537), (2, 65536 + 192), (1, 70000), (1, 131072 + 16), (2, 65535)]:
+            for prev in (0, 1):
+                f = dict(gen.option_fields(rng))
+                f['nf'] = prev + 1
+                if prev:
+                    f['f0'] = '44100:1:16:1,2,3,4'
+                f[f'f{prev}'] = f'44100:{ch}:8:3*{ln * ch}' if ln else f'44100:{ch}:8:-'
+                f['mode'] = 'clean'; f['lens'] = '1'
+                if ln > 65535 or ln == 0:
+                    f['expect'] = 'refuse'
+                out.append('streamrw ' + gen.fields_str(f))
         return out
+    def expand(self, pcm):
+        if '*' not in pcm:
+            return pcm
+        out = []
+        for t in pcm.split(','):
+            v, _, n = t.partition('*')
+            out += [v] * (int(n) if n else 1)
+        return ','.join(out)
     def written(self, cf):
         fr = []
         for k in range(int(cf.get('nf', '0'))):
             rate, ch, bps, pcm = cf[f'f{k}'].split(':', 3)
-            fr.append(f'F/{rate}/{ch}/{bps}/{pcm}')
+            fr.append(f'F/{rate}/{ch}/{bps}/{self.expand(pcm)}')
         return fr
     def oracle(self, case, impl, profile):
         op, cf = parse_case(case)
         h, cls, f = parse_outcome(impl)
         if h == 'panic':
             return (panic_sig(self.name, impl), 'stream writer/reader panicked: ' + cls)
+        if cf.get('expect') == 'refuse':
+            if h == 'err' and cls == 'InvalidBlockSize':
+                return None
+            return (f'{self.name}:oversize-accepted', 'FlacStreamWriter did not refuse (InvalidBlockSize) a write whose length no frame header can hold: ' + impl[:120])
         if h != 'ok':
             return (f'{self.name}:writer-refused:{cls}', 'FlacStreamWriter refused a subset-legal frame: ' + impl[:200])
         seq = f.get('seq', '').split(';')
@@ -877,13 +903,14 @@ class CrashPrefix(Component):
         n = self.budget(tier, boost, 60, 3000)
         for i in range(n):
             ch = rng.choice([1, 2, 2, 3])
-            bps = rng.choice([8, 16, 24, 12, 32])
+            # depths and rates without a frame-header code make every frame header refer to STREAMINFO
+            bps = rng.choice([8, 16, 24, 12, 32, 10, 7, 17, 21])
             bs = rng.choice([16, 16, 20, 32])
             nblocks = rng.randint(1, 5)
             frames = bs * nblocks + rng.choice([0, 1, 7, bs - 1])
             pcm, shape = gen.pcm_multi(rng, frames, ch, bps)
             fe = rng.choice(['byte', 'sample', 'chan'])
-            f = {'fe': fe, 'endian': rng.choice(['le', 'be']), 'rate': rng.choice([44100, 20, 100]), 'ch': ch, 'bps': bps, 'bs': bs,
+            f = {'fe': fe, 'endian': rng.choice(['le', 'be']), 'rate': rng.choice([44100, 20, 100, 96001, 655351, 1048575]), 'ch': ch, 'bps': bps, 'bs': bs,
                  'seek': rng.choice(['off', 'default', 'frames:1', 'frames:2', 'secs:1']), 'pad': rng.choice([0, 0, 30, 100]),
                  'lpc': rng.choice(['none', '2', '8']), 'reader': rng.choice(['sample', 'chan']),
                  'cuts': 'all' if (i % 3 != 0 or tier == 'thorough') else 'calls'}
@@ -1043,6 +1070,9 @@ class BlocksWrite(Component):
     profiles = ('release', 'checked')
     def cases(self, rng, tier, boost):
         out = ['blocksw list=' + l for l in (metagen.SIZE_LIMIT_LISTS if tier == 'thorough' else metagen.SIZE_LIMIT_LISTS[4:5] + metagen.SIZE_LIMIT_LISTS[-1:])]
+        # every picture type code the format defines (and the first two undefined ones), each alone
+        for t in range(0, 23):
+            out.append('blocksw list=' + metagen.streaminfo_lit(rng) + ';' + metagen.picture_lit(rng, t))
         # every block kind alone at its extremes, then random lists
         for kind in 'PATVIQC':
             for _ in range(self.budget(tier, boost, 12, 300)):
@@ -1090,7 +1120,7 @@ class BlocksRead(Component):
     ops = ('blocksr',)
     profiles = ('release', 'checked')
     def cases(self, rng, tier, boost):
-        out = []
+        out = [f'blocksr bytes={b.hex()} alloc=1 class={c}' for c, b in metagen.inflated_sections()]
         for _ in range(self.budget(tier, boost, 400, 20000)):
             b = metagen.section(rng)
             if rng.random() < 0.7:
@@ -1319,7 +1349,8 @@ NOT_YET = {}
 PROPS['C16'] = dict(
     module='FlacModel.Props.C16',
     theorems=['Flac.C16.stream_no_fabrication', 'Flac.C16.stream_results_ascending', 'Flac.C16.no_sync_no_loss_partial',
-              'Flac.C16.skipUntilFF_no_ff'],
+              'Flac.C16.skipUntilFF_no_ff', 'Flac.C16.no_sync_no_loss', 'Flac.C16.tail_noSync_eof', 'Flac.C16.clean_stream_reads_all',
+              'Flac.decodeFrame_sync', 'Flac.decodeFrame_ext', 'Flac.C16.written_frame_standalone', 'Flac.C16.written_stream_reads_back'],
     components=[StreamRW(), StreamRead()],
     rule='streamrw: 1-6 frames with independently drawn rate/channels/depth/length written by one FlacStreamWriter, '
          'garbage (none / 0xFF-free / with planted FF F8|F9) between them, source segmented (max-N reads or random split points), '
@@ -1327,14 +1358,18 @@ PROPS['C16'] = dict(
          'streamread: random bytes with planted sync codes in both build profiles',
     claim='Theorems over the model of FlacStreamReader::read, for arbitrary (unbounded) input bytes: stream_no_fabrication (every returned frame is the '
           'checksum-valid decoding of a contiguous input range that starts at FF F8|F9; the rest is what follows it), stream_results_ascending, '
-          'no_sync_no_loss_partial (0xFF-free garbage costs no frame, given that the written frame decodes - C01). The model is tied to the code on '
-          'every run by generated frame sequences with garbage and source segmentations, compared result by result.',
+          'no_sync_no_loss (bytes that do not contain the sync pattern FF F8|F9 - they may contain 0xFF, even as their last byte - cost no frame: one read() over '
+          'garbage ++ frame ++ anything returns exactly that frame and leaves exactly `anything`; uses frame locality decodeFrame_ext and decodeFrame_sync), '
+          'clean_stream_reads_all (any sequence of standalone frames with sync-free bytes around them is returned in order, then end of stream; nothing relates one '
+          'frame\'s parameters to the next), written_frame_standalone (every frame well-formed WITHOUT STREAMINFO context decodes from its own header alone - from '
+          'C01.frame_roundtrip) and written_stream_reads_back (their composition over serialized frames). The model is tied to the code on '
+          'every run by generated frame sequences with garbage and source segmentations, compared result by result; writes longer than 65535 samples per channel must be refused.',
     note='Trusted: Lean kernel, translate.py, harness. Segmentation independence holds of the model by construction and is only exhibited for the '
          'implementation; bitstream-io/BufRead are modelled, not verified.',
     trusted_base=COMMON_TRUST,
     assumptions=['segmentation independence is a property of the model by construction (the model never sees the split points); '
                  'for the implementation it is exhibited by the correspondence over generated segmentations, not proved',
-                 'no_sync_no_loss carries the hypothesis that each written frame decodes (C01) and begins FF F8|F9'],
+                 'that FlacStreamWriter emits frames of the domain FrameWf none is exhibited (every written frame is read back by the real reader and the model), not proved: the writer side is not modelled'],
 )
 
 C01_THEOREMS = ['Flac.C01.stereo_leftside_inverse', 'Flac.C01.stereo_sideright_inverse', 'Flac.C01.stereo_midside_inverse',
@@ -1342,23 +1377,31 @@ C01_THEOREMS = ['Flac.C01.stereo_leftside_inverse', 'Flac.C01.stereo_sideright_i
                 'Flac.C01.rice_fold_neg', 'Flac.C01.rice_fold_pos', 'Flac.C01.fold_unfold']
 
 PROPS['C01'] = dict(
-    module='FlacModel.Props.C01',
-    theorems=C01_THEOREMS,
+    module='FlacModel.Props.C01b',
+    theorems=C01_THEOREMS + ['Flac.C01.frame_roundtrip', 'Flac.C01.frame_roundtrip_checked', 'Flac.decodeFrame_serialize', 'Flac.frameWfB_sound',
+                             'Flac.readHeaderFields_write', 'Flac.readSubframe_write', 'Flac.readResidual_write', 'Flac.crc8_self', 'Flac.crc16_self',
+                             'Flac.C01.lpc_restores', 'Flac.C01.fixed_restores', 'Flac.C01.wasted_restores', 'Flac.C01.recorrelate_stereo',
+                             'Flac.C01.lossless_independent', 'Flac.C01.lossless_stereo'],
     components=[EncFrame('roundtrip'), RoundTripFile()],
     rule='encframe: every length 1..48 (quick) / 1..96 (thorough) x 11 signal shapes x mono/stereo x 6 option sets, plus random '
-         '(channels 1-8, depth in the subset codes, lengths around powers of two and block-size codes, all option dimensions); '
+         '(channels 1-8, depth in the subset codes, lengths around powers of two and block-size codes, all option dimensions); every frame the real '
+         'encoder emits is parsed by the model, tested with the executable frameWfB (domain of frame_roundtrip) and re-serialized (must give the same bytes); '
          'rtfile: whole files through byte/sample/channel writers and byte/sample/iterator/channel readers, depths 4-32, short final blocks; '
          'non-trivial = encoded successfully with more than a handful of samples; distinct by case text',
-    claim='Mechanism theorems proved for ALL inputs about the arithmetic kernels regenerated from encode.rs/decode.rs on every run: '
-          'stereo_{leftside,sideright,midside}_inverse (no trap, no wrap, depth <= 31), wasted_inverse, predict_restore (for every coefficient '
-          'list and shift, i.e. whatever the float LPC analysis chose), layout_agree (every partition slicing the encoder accepts is the one the '
-          'decoder derives), rice_fold_*/fold_unfold. The end-to-end statement (all writer x reader front-ends) is assembled from these by the '
-          'correspondence run, not yet by one composed theorem (file_roundtrip is _partial).',
-    note='The composition of the mechanisms into whole-frame/whole-file round trip is exhibited by the real encoder -> real decoder / Lean decoder '
-         'model / independent L0 decoder on generated inputs, not proved as one theorem; the FIXED-predictor binomial identity is not yet mechanised. '
-         'Heuristic choices (LPC analysis, Rice parameter estimate) are universally quantified, never modelled.',
+    claim='frame_roundtrip (Proofs/Codec.lean, ~800 lines): for EVERY well-formed frame - any header the format expresses, any number of subframes of all four kinds, '
+          'any partitioning, Rice/escape parameters, wasted bits, padding, both profiles, with or without STREAMINFO - the streaming decoder run on the serialized '
+          'bytes consumes exactly those bytes, accepts CRC-8 and CRC-16 (crc8_self/crc16_self: a message followed by its CRC has remainder 0, over the tables regenerated '
+          'from crc.rs) and returns exactly what the subframes expand to: every bit-level reader inverts its writer (readU/readS/unary/Rice/partition/residual/'
+          'subframe/coded number/header). lpc_restores/fixed_restores/wasted_restores/recorrelate_stereo: what the encoder kernels (regenerated from encode.rs) '
+          'compute for ANY quantised coefficients, shift and decorrelation mode expands back to the input channel(s); lossless_independent/lossless_stereo compose '
+          'them. frameWfB_sound: the executable test the driver runs on real encoder output implies the hypothesis. Plus the mechanism theorems '
+          'stereo_*_inverse, wasted_inverse, predict_restore, layout_agree, rice_fold_*/fold_unfold.',
+    note='Whole FILES (metadata + frame sequence through the writer/reader front-ends and MD5) are composed by the correspondence run, not by one theorem; '
+         'depth-32 stereo (the 33-bit side channel) is proved only at kernel level (C03 wide_*); the choice logic of the encoder (which candidate wins) is '
+         'universally quantified, never modelled: that the real encoder emits a frame of the proved domain is checked per generated frame (frameWfB + re-serialization).',
     trusted_base=COMMON_TRUST,
-    assumptions=['samples fit the declared depth (hypothesis of the property)', 'f64 LPC analysis is outside the model: theorems hold for every coefficient choice'],
+    assumptions=['samples fit the declared depth (hypothesis of the property)', 'f64 LPC analysis is outside the model: theorems hold for every coefficient choice',
+                 'the real encoder\'s output lies in the domain FrameWf: tested on every generated frame, not proved'],
 )
 
 PROPS['C02'] = dict(
@@ -1500,7 +1543,7 @@ PROPS['C04'] = dict(
     module='FlacModel.Props.C04',
     theorems=['Flac.C04.np_decLayout', 'Flac.C04.readSubframe_np_facts', 'Flac.C04.np_decodeSub', 'Flac.C04.np_recorrelate',
               'Flac.C04.pnp_readHeaderFields', 'Flac.C04.decode_no_panic', 'Flac.C04.stream_read_no_panic', 'Flac.C04.file_loop_no_panic'],
-    components=[InvalidStreams('nopanic'), Damage('nopanic')],
+    components=[InvalidStreams('nopanic'), Damage('nopanic'), BlocksRead()],
     rule='(a) 1500 (quick) / 80000 (thorough) checksum-consistent frames from the Lean generator with one field forced illegal or extreme (22 classes: reserved codes, wasted >= depth, '
          'precision 1111, negative shift, reserved coding methods, any partition order with matching partition count, residuals beyond 32 bits, samples leaving their depth, non-zero padding, '
          'predictor order > block, maximal LPC on full-scale input incl. the 33-bit side path, full-scale stereo, maximal wasted bits, zero-width partitions, one-sample block with order 1, '
